@@ -59,6 +59,8 @@ func c19(w *core.World, r *core.Report) {
 	ruleExecWaitsForAll(w, r)
 	r.Rule("R19.18", "a refused MOVED or ASK in transactional replay becomes 'typology changed'", 2)
 	ruleDirectErrorEscalates(w, r)
+	r.Rule("R19.17", "the pipelined receiver closes the replay with the escalated error", 1)
+	ruleEscalatedErrorClosesReplay(w, r)
 }
 
 func ruleRepliesClassified(w *core.World, r *core.Report) {
